@@ -10,7 +10,7 @@ import collections
 from lib import exprs as E, exprgen as G, exprcheck as X
 
 THEOREMS = [
-    "Claripy.Props.C01.C01_built_sound", "Claripy.Props.C01.C01_direct_sound", "Claripy.Props.C01.C01_full_of_built", "Claripy.AST.wt_of_ne_err",
+    "Claripy.Props.C01.C01_built_sound", "Claripy.Props.C01.C01_direct_sound", "Claripy.Props.C01.C01_full_of_built", "Claripy.AST.wt_of_ne_err", "Claripy.AST.extractRules_sound", "Claripy.AST.extrV_foldl",
     "Claripy.Props.C01.C01_rules_sound", "Claripy.Props.C01.C01_rewrite_step_sound", "Claripy.Props.C01.C01_congruence",
     "Claripy.Props.C01.C01_eval_canonical", "Claripy.Props.C01.C01_fold_sound", "Claripy.Props.C01.C01_fold_sound_all", "Claripy.BV.reverse_spec", "Claripy.BV.reverseLoop_eq", "Claripy.Props.C01.C01_ac_rewrite_sound",
     "Claripy.Props.C01.C01_ac_rewrite_sound_width", "Claripy.Props.C01.C01_bool_ac_rewrite_sound", "Claripy.Props.C01.C01_bits_rewrite_sound", "Claripy.Props.C01.C01_cmp_rewrite_sound", "Claripy.Props.C01.C01_and_eq_ne_sound", "Claripy.Props.C01.C01_minmax_rewrite_sound", "Claripy.Props.C01.C01_max_idiom", "Claripy.Props.C01.C01_min_idiom",
